@@ -79,9 +79,9 @@ fn half_life(rep: &mut Report, v: &Value) -> bool {
             let r = catch(f);
             let _ = tx.send(r);
         });
-        match rx.recv_timeout(Duration::from_secs(5)) {
+        match rx.recv_timeout(Duration::from_secs(120)) {
             Err(_) => {
-                rep.mismatch("half_life", "half_life", &key, cell, "did not terminate within 5 s", v);
+                rep.mismatch("half_life", "half_life", &key, cell, "did not terminate within 120 s", v);
                 return false;
             },
             Ok(Err(p)) => rep.mismatch("half_life", "half_life", &key, cell, &format!("panicked: {p}"), v),
